@@ -520,3 +520,24 @@ mod tests {
         );
     }
 }
+
+#[cfg(dust_dds_verif)]
+#[doc(hidden)]
+#[allow(missing_docs)]
+mod verif_qos_hooks {
+    use super::*;
+    impl DataWriterQos {
+        pub fn verif_is_consistent(&self) -> DdsResult<()> { self.is_consistent() }
+        pub fn verif_check_immutability(&self, other: &Self) -> DdsResult<()> { self.check_immutability(other) }
+    }
+    impl DataReaderQos {
+        pub fn verif_is_consistent(&self) -> DdsResult<()> { self.is_consistent() }
+        pub fn verif_check_immutability(&self, other: &Self) -> DdsResult<()> { self.check_immutability(other) }
+    }
+    impl TopicQos {
+        pub fn verif_is_consistent(&self) -> DdsResult<()> { self.is_consistent() }
+    }
+    impl SubscriberQos {
+        pub fn verif_check_immutability(&self, other: &Self) -> DdsResult<()> { self.check_immutability(other) }
+    }
+}
